@@ -406,7 +406,13 @@ def rule_verdict(ctx, repo):
     rets = [n for n in walk_noscope(fn) if isinstance(n, ast.Return)]
     e = None
     if len(rets) == 1 and rets[0].value is not None:
-        e = Q.first("$mis = max(abs($fmax), abs($gmax))", fn, {"mis": rets[0].value})[1]
+        # any max-type reduction of the two maxima (which reducer is NaN-safe is C17.nan's business)
+        for form in ("$mis = max(abs($fmax), abs($gmax))", "$mis = np.maximum(abs($fmax), abs($gmax))",
+                     "$mis = np.maximum(np.abs($fmax), np.abs($gmax))", "$mis = np.max(np.abs([$fmax, $gmax]))",
+                     "$mis = np.max(np.abs(np.array([$fmax, $gmax])))", "$mis = np.fmax(abs($fmax), abs($gmax))"):
+            e = Q.first(form, fn, {"mis": rets[0].value})[1]
+            if e is not None:
+                break
     ok = e is not None
     if ok:
         e1 = Q.first("$gidx = np.argmax(np.abs($sys.dae.g))", fn, e)[1]
